@@ -1060,7 +1060,7 @@ def corr_trainers(ctx, degenerate=False):
         sw = rng.random((F, T)) + 1e-3
         if degenerate and rng.random() < 0.5:
             sw = sw * (rng.random((F, T)) < 0.5)
-        v = int(rng.integers(10))
+        v = int(rng.integers(11))
         lines.append(f'weight {v} {F} {K} {T} {fbits(aff)} {fbits(sw)}')
         metas.append(('weight', dict(v=v, aff=aff, s=sw)))
         ctx.count(f'corr-weight-variant{v}')
@@ -1190,6 +1190,9 @@ def _corr_one(op, d, o, dist, mmu, cb, parse_floats, parse_complex, parse_ints):
         v, aff, s = d['v'], d['aff'], d['s']
         F, K, T = aff.shape
         got = parse_floats(o)
+        if v == 10:
+            want = mmu.estimate_mixture_weight(cp(aff), cp(s), (-2,))
+            return _close(got, np.ravel(want)), f'weight (-2,) tuple form with saliency: model {got[:4]} code {np.ravel(want)[:4]}'
         if v <= 6:
             wca = [(-1,), (-3,), (-3, -1), -2, (-1,), (-3,), (-3, -1)][v]
             want = mmu.estimate_mixture_weight(cp(aff), None if v <= 3 else cp(s), wca)
